@@ -86,6 +86,8 @@ def run_shard(shard):
             for mode in MODES:
                 for pol in POLS:
                     check(st, STREAMS[li], STREAMS[ri], mode, pol)
+        if li == 0:
+            typed_family(st)
     finally:
         cleanup()
     st.sample({"lhs_stream": render_stream(STREAMS[li]),
@@ -230,8 +232,75 @@ def check(st, lidx, ridx, mode, pol):
             return
 
 
+TYPED_PAIRS = [
+    ("a: 1\n", "d: 2020-01-02\n"),
+    ("l: [1]\n", "l: [2020-01-02T03:04:05.678Z]\n"),
+    ("d: 2001-12-14\nk: x\n", "d: 2020-01-02\nt: 2001-12-14T21:59:43.10-05:00\n"),
+    ("a: &A 2020-01-02\nb: *A\n", "c: &C 2021-03-04\nd: *C\n"),
+    ("f: 1.5\n", "f: 10.0\ng: -0.25\nh: 1.0e+3\n"),
+    ("s: !!set {? x}\n", "s: !!set {? y}\nn: ~\nb: true\n"),
+]
+
+
+def typed_family(st):
+    """Streams of ONE document each: all three modes are then the same single
+    pairwise merge, so they must write the same document - also for values
+    the modes' own copying has to carry along (dates, timestamps to the
+    microsecond, floats, anchored dates, sets)."""
+    from yamlpath.common import Parsers
+    from vkit import editrun
+    for ltext, rtext in TYPED_PAIRS:
+        for pol in POLS[:1]:
+            outs = {}
+            for mode in MODES:
+                st.evaluations += 1
+                st.transitions += 1
+                st.validated += 1
+                cfg = mergerun.make_config(pol)
+                cfg.args.multi_doc_mode = mode
+                lpath = os.path.join(scratch(), "tl.yaml")
+                rpath = os.path.join(scratch(), "tr.yaml")
+                with open(lpath, "w", encoding="utf-8") as fh:
+                    fh.write(ltext)
+                with open(rpath, "w", encoding="utf-8") as fh:
+                    fh.write(rtext)
+                editor = Parsers.get_yaml_editor()
+                Merger.depwarn_printed = False
+                try:
+                    lhs_docs, ok = yaml_merge.get_doc_mergers(
+                        corpus.LOG, editor, cfg, lpath)
+                    with core.watchdog(10):
+                        state = yaml_merge.merge_docs(
+                            corpus.LOG, editor, cfg, lhs_docs, rpath)
+                    outs[mode] = (state, [editrun.dump(m.data)
+                                          for m in lhs_docs])
+                except BaseException as ex:  # pylint: disable=broad-except
+                    outs[mode] = ("crash", type(ex).__name__)
+                st.states += 1
+            case = {"lhs_stream": ltext, "rhs_stream": rtext, "mode": "all",
+                    "policies": pol, "typed": True}
+            st.sig("typed", ltext, rtext)
+            if len(set(repr(v) for v in outs.values())) != 1 or \
+                    outs[MODES[0]][0] != 0:
+                st.fail("single-document-streams|modes-disagree", case,
+                        repr(outs["merge_across"])[:300],
+                        repr({m: outs[m] for m in MODES
+                              if outs[m] != outs["merge_across"]})[:400])
+
+
 def replay(case):
     st = core.Stats(None)
+    if case.get("typed"):
+        try:
+            typed_family(st)
+        finally:
+            cleanup()
+        for lst in st.fails.values():
+            for f in lst:
+                if f["case"]["lhs_stream"] == case["lhs_stream"] and \
+                        f["case"]["rhs_stream"] == case["rhs_stream"]:
+                    return f
+        return None
     try:
         check(st, tuple(case["lidx"]), tuple(case["ridx"]), case["mode"],
               case["policies"])
